@@ -27,7 +27,7 @@ Probe == IF Quick THEN {<< WM(2, S(0, 3)) >>, << NW(1), WR(S(1, 1), "w"), CL >>,
          ELSE {<< WM(2, S(0, 3)) >>, << NW(1), WR(S(1, 1), "w"), CL >>, << WP(0) >>, << WC(9, S(0, 1), "zero") >>, << WJ(S(0, 2)) >>}
 
 Extras == {<< >>, << WC(9, S(0, 5), "zero") >>, << WC(10, S(0, 125), "d1") >>, << SD("d1") >>, << SD("d2"), WC(9, S(0, 0), "zero") >>,
-           << EC(FALSE) >>, << EC(FALSE), EC(TRUE) >>, << SL(9) >>, << SL(-2) >>, << SL(0) >>, << SL(10) >>}
+           << XC >>, << EC(FALSE) >>, << EC(FALSE), EC(TRUE) >>, << SL(9) >>, << SL(-2) >>, << SL(0) >>, << SL(10) >>}
 Invalid == {<< WM(0, S(0, 1)) >>, << WM(3, S(0, 1)) >>, << WM(7, S(0, 1)) >>, << WM(11, S(0, 1)) >>, << WM(-1, S(0, 1)) >>,
             << WC(1, S(0, 1), "zero") >>, << WC(9, S(0, 126), "zero") >>, << WM(9, S(0, 126)) >>, << WM(8, S(0, 126)) >>,
             << NW(9), WR(S(0, 126), "w"), CL >>, << NW(10), WR(S(0, 100), "w"), WR(S(0, 26), "w"), CL >>,
